@@ -298,12 +298,20 @@ def gen_flat_trace(seed, faults):
         lo, hi, cw, widths = DATA_MIN, 2**32, 1, [1, 2, 4, 8]
     counter = [0]
 
+    small = r.random() < 0.3  # value personality: zeros, small and repeated values (overwriting with 0, equal stores)
+    last = [0]
+
     def value(w):
         counter[0] += 1
         c = counter[0]
+        if small and r.random() < 0.5:
+            v = r.choice([0, 0, 1, 255, 256, 0x80, 0xFFFF, last[-1]]) & ((1 << (8 * w)) - 1)
+            last.append(v)
+            return v
         v = 0
         for i in range(w):
             v |= ((c * 29 + i * 53 + 7) & 0xFF) << (8 * i)
+        last.append(v)
         return v
 
     window = r.choice([lo, lo, lo + r.randrange(0, 64), hi - 40, (lo + hi) // 2])
